@@ -112,8 +112,9 @@ class FileCache:
             if not can_cache:
                 logging.warning(f"unable to recover memory for requsted file: {file_name} {memory_usage} {self.max_memory} {self.current_memory_usage}")
             info = self.file_futures.get(file_name)
-            # the file can't be unloaded until it's got a file access time
-            assert info is not None
+            if info is None:
+                # the entry was unloaded by another client while this task was pending: nothing to account
+                return
             if can_cache:
                 self.update_file_access_time(file_name)
                 self.current_memory_usage += memory_usage
